@@ -28,5 +28,5 @@ print(name, "detected" if m["check"]["detected"] else "MISSED", "(failing input)
 PY
 }
 export -f one
-ls seeded | xargs -P "$jobs" -I{} bash -c 'one {}'
+(if [ -n "$SEEDS" ]; then printf "%s\n" $SEEDS; else ls seeded; fi) | xargs -P "$jobs" -I{} bash -c 'one {}'
 git -C /repo worktree prune
